@@ -137,6 +137,29 @@ static std::string demangle(const char* m)
 static const char* only_cls = nullptr;
 static int n_nodes = 0;
 
+// The category stamp of the process-wide constants as seen DURING STATIC INITIALISATION of a client translation unit (this one is
+// linked before the library, so its initialisers run first): a constant that is no longer constant-initialised reads as raw storage
+// there.  Only the `category` data member is read (no virtual call).  Compared in main() with what the same accessor answers then.
+namespace {
+   struct Early_constants {
+      std::vector<std::pair<const char*, int>> seen;
+      Early_constants()
+      {
+         impl::Lexicon lex;
+         auto rec = [&](const char* what, const ipr::Node& n) { seen.emplace_back(what, static_cast<int>(n.category)); };
+         rec("true_value", lex.true_value()); rec("false_value", lex.false_value()); rec("nullptr_value", lex.nullptr_value());
+         rec("default_value", lex.default_value()); rec("delete_value", lex.delete_value());
+         rec("void_type", lex.void_type()); rec("bool_type", lex.bool_type()); rec("char_type", lex.char_type());
+         rec("int_type", lex.int_type()); rec("double_type", lex.double_type()); rec("typename_type", lex.typename_type());
+         rec("class_type", lex.class_type()); rec("union_type", lex.union_type()); rec("enum_type", lex.enum_type());
+         rec("namespace_type", lex.namespace_type());
+         rec("get_string(\"\")", lex.get_string(u8"")); rec("get_string(\"int\")", lex.get_string(u8"int"));
+         rec("get_identifier(\"this\")", lex.get_identifier(u8"this"));
+      }
+   };
+   const Early_constants early_constants;
+}
+
 static void observe(const char* label, const Node& n)
 {
    std::string cls = demangle(typeid(n).name());
@@ -491,6 +514,15 @@ int main(int argc, char** argv)
       else if (std::strncmp(argv[i], "--variant=", 10) == 0) variant = std::strtoul(argv[i] + 10, nullptr, 10);
    }
    static_facts();
+   {
+      impl::Lexicon lex;
+      const ipr::Node* now[] = { &lex.true_value(), &lex.false_value(), &lex.nullptr_value(), &lex.default_value(), &lex.delete_value(),
+         &lex.void_type(), &lex.bool_type(), &lex.char_type(), &lex.int_type(), &lex.double_type(), &lex.typename_type(), &lex.class_type(),
+         &lex.union_type(), &lex.enum_type(), &lex.namespace_type(), &lex.get_string(u8""), &lex.get_string(u8"int"),
+         &lex.get_identifier(u8"this") };
+      for (std::size_t i = 0; i < early_constants.seen.size(); ++i)
+         std::printf("Z %s early=%d now=%d\n", early_constants.seen[i].first, early_constants.seen[i].second, static_cast<int>(now[i]->category));
+   }
    build_and_observe(variant);
    std::printf("# nodes=%d\n", n_nodes);
    return 0;
